@@ -112,9 +112,19 @@ def dump(obj: Any, fp, **kwargs):
             fp.write(json_bytes)
         except Exception as e:
             logger.debug(f"orjson failed, falling back to stdlib json: {e}")
-            _stdlib_json.dump(obj, fp, **kwargs)
+            _stdlib_dump(obj, fp, **kwargs)
     else:
-        _stdlib_json.dump(obj, fp, **kwargs)
+        _stdlib_dump(obj, fp, **kwargs)
+
+
+def _stdlib_dump(obj: Any, fp, **kwargs) -> None:
+    """stdlib json.dump that, like the orjson path, also accepts a binary file."""
+    text = _stdlib_json.dumps(obj, **kwargs)
+    try:
+        fp.write(text)
+    except TypeError:
+        # binary file: write the same document as UTF-8 bytes
+        fp.write(text.encode("utf-8"))
 
 
 def load(fp) -> Any:
